@@ -30,8 +30,15 @@ def schur_cases(draw, tier):
     n = draw(st.integers(1, 6 if tier == "quick" else 7))
     kind = draw(st.sampled_from(["generic", "generic", "hermitian", "triangular", "normal", "lowrank", "int",
                                  "lower_triangular", "hessenberg", "banded", "sparse_units", "block_diag", "unitary", "unitary",
-                                 "badly_scaled"]))
-    if kind == "generic":
+                                 "badly_scaled", "nearly_hermitian"]))
+    if kind == "nearly_hermitian":
+        # Hermitian up to a relative asymmetry of 1e-12 .. 1e-6 (assembled from rounded data): still a general matrix,
+        # so the similarity has to hold for it as it stands - a "Hermitian" shortcut behind a loose test drops the rest
+        lam = draw(st.lists(st.sampled_from([-3.0, -2.0, -1.0, -0.5, 0.5, 1.0, 2.0, 3.0, 4.0]), min_size=n, max_size=n))
+        A = draw(gen.hermitian_with_spectrum(n, lam))
+        E = draw(gen.qarray(n, n, "generic"))[0] / 4.0
+        A = A + E * 10.0 ** draw(st.integers(-12, -6))
+    elif kind == "generic":
         A = draw(gen.qarray(n, n, "generic"))[0] / 4.0
     elif kind == "int":
         A = draw(gen.qarray(n, n, "int"))[0]
